@@ -52,6 +52,12 @@ def gen_history(rng):
         msgs.append({'log': log, 'k': k, 'chains': chains, 'ref': None, 'started': False})
     out = []
     active_refs = {}
+    # one history in three: every segmented message gets the SAME reference (the 8-bit reference has come round while the older
+    # messages are still in flight); the sender stores the segments of one message before it turns to the next
+    same_ref = rng.random() < 0.33
+
+    def storing(x):
+        return x['k'] > 1 and x['started'] and any(c2 and c2[0][0] == 'put' for c2 in x['chains'])
     while any(c for m in msgs for c in m['chains']):
         cands = []
         for m in msgs:
@@ -61,7 +67,10 @@ def gen_history(rng):
                 if c[0][0] == 'put':
                     # segments are stored in the order sent; a message starts only when a reference is free
                     if all(not (x and x[0][0] == 'put') for x in m['chains'][:ci]):
-                        if m['started'] or m['k'] == 1 or [r for r in free_refs if r not in active_refs]:
+                        if same_ref:
+                            if m['started'] or m['k'] == 1 or not any(storing(x) for x in msgs if x is not m):
+                                cands.append((m, c))
+                        elif m['started'] or m['k'] == 1 or [r for r in free_refs if r not in active_refs]:
                             cands.append((m, c))
                 else:
                     cands.append((m, c))
@@ -77,8 +86,9 @@ def gen_history(rng):
                 ev = ev + (tuple(x[2] for x in picked),)
         if ev[0] == 'put':
             if m['k'] > 1 and not m['started']:
-                m['ref'] = rng.choice([r for r in free_refs if r not in active_refs])
-                active_refs[m['ref']] = m
+                m['ref'] = 5 if same_ref else rng.choice([r for r in free_refs if r not in active_refs])
+                if not same_ref:
+                    active_refs[m['ref']] = m
             m['started'] = True
             sar = (m['ref'], ev[5], ev[6]) if m['k'] > 1 else (0, 0, 0)
             ev = ('put', ev[1], ev[2], ev[3], sar)
@@ -431,7 +441,7 @@ def run(ctx):
             flat += [int(k), uid_of_seq[int(k)]]
         flat += [-8] + [int(k) for k in c._segment_store._data.keys()] + [-9]
         for k, ss in c._segment_status_store._data.items():
-            flat += [int(k)]
+            flat += [core.status_key(k)]
             for a, b in ss.status.items():
                 flat += [int(a), b]
             flat += [-1]
@@ -496,7 +506,7 @@ def run(ctx):
         if msg:
             ctx.violation(f'{n_between + 2} messages queued before start(), the first and the last segmented'
                           + (' (they share the 8-bit reference)' if n_between >= 255 else '') + ': ' + msg,
-                          {'finding_key': 'reference-collision-256-in-flight' if n_between >= 255 else None, 'scenario': 'reference_collision', 'n_between': n_between})
+                          {'scenario': 'reference_collision', 'n_between': n_between})
     return ctx.finish()
 
 
